@@ -112,7 +112,7 @@ JPrefix(l, v) == /\ v = SubSeq(T, idx + 1, Min(idx + l, Len(T)))
                  /\ Len(v) = l \/ (v # <<>> /\ v[Len(v)] = NUL)               \* short only at the end of the stream
 \* index / line / column are Pos(Doc, i)
 JPos == H!PosDefined(T, idx) /\ line = H!LineAt(T, idx) /\ col = H!ColAt(T, idx)
-HExpect == IF H!FirstBad(doc) = 0 THEN NoErr ELSE H!ExpectedError(doc, form)   \* exported with the MBT dump
+HExpect == IF H!FirstBad(doc) = 0 THEN [kind |-> "-", pos |-> 0, span |-> 0] ELSE H!ExpectedError(doc, form)   \* exported with the MBT dump
 
 (***************************************************************************)
 (* reader.py                                                               *)
@@ -254,7 +254,7 @@ Init ==
   /\ doc = <<>> /\ closed = FALSE /\ src = H!BomUnits(form)
   /\ raw = <<>> /\ rawNone = TRUE /\ buf = <<>> /\ ptr = 0 /\ eof = TRUE /\ spos = 0 /\ enc = "?"
   /\ idx = 0 /\ line = 0 /\ col = 0
-  /\ pc = "new" /\ ret = "-" /\ need = 0 /\ op = NoOp /\ err = NoErr /\ hexp = NoErr
+  /\ pc = "new" /\ ret = "-" /\ need = 0 /\ op = NoOp /\ err = NoErr /\ hexp = [kind |-> "-", pos |-> 0, span |-> 0]
   /\ ahead = <<>> /\ hok = TRUE /\ calls = <<>>
 
 Next ==
@@ -278,9 +278,9 @@ H_Position == (pc \in {"ready", "end"}) => JPos
 \* the whole document and then NUL, nothing after it
 H_End    == (pc = "end") => (closed /\ H!FirstBad(doc) = 0 /\ idx = Len(T) - 1)
 \* an error is raised only for a defective document, names the first offending unit, at its offset in units of the form
-H_Error     == (pc = "error") => (H!FirstBad(doc) # 0 /\ err = H!ExpectedError(doc, form))
+H_Error     == (pc = "error") => (H!FirstBad(doc) # 0 /\ H!Names(err, H!ExpectedError(doc, form)))
 \* weaker: it names an offending unit of the document at its right offset (holds for the code as it is, see C07 finding)
-H_ErrorWeak == (pc = "error") => (err \in H!Offences(doc, form))
+H_ErrorWeak == (pc = "error") => (\E o \in H!Offences(doc, form) : H!Names(err, o))
 \* a defective document is never read past its first offending unit: T stops there (H_Calls / H_Ahead)
 
 (***************************************************************************)
@@ -292,5 +292,5 @@ H_ErrorWeak == (pc = "error") => (err \in H!Offences(doc, form))
 HPosTable == [i \in 1 .. Len(T) + 1 |-> IF H!PosDefined(T, i - 1) THEN <<H!LineAt(T, i - 1), H!ColAt(T, i - 1)>> ELSE <<>>]
 Export == (History /\ pc \in {"end", "error", "crash"}) =>
              PrintT("TRIPLE " \o ToString(<<form, prog, doc, calls, pc, T, HPosTable,
-                      IF pc = "error" THEN <<hexp.kind, hexp.pos, err.kind, err.pos, H!Offences(doc, form)>> ELSE <<>>, <<spos, idx, line, col>> >>))
+                      IF pc = "error" THEN <<hexp.kind, hexp.pos, hexp.span, err.kind, err.pos, H!Offences(doc, form)>> ELSE <<>>, <<spos, idx, line, col>> >>))
 =============================================================================
